@@ -20,7 +20,7 @@ from typing import (
 )
 
 from .._utils import flatten
-from ..exc import SDLError
+from ..exc import CoercionError, SDLError
 from ..lang import ast as _ast
 from ..schema import (
     SPECIFIED_DIRECTIVES,
@@ -211,7 +211,10 @@ class _SchemaDirectivesApplicationVisitor(SchemaVisitor):
             if name in applied:
                 raise SDLError('Directive "@%s" already applied' % name, [node])
 
-            args = coerce_argument_values(directive_def, node)
+            try:
+                args = coerce_argument_values(directive_def, node)
+            except CoercionError as err:
+                raise SDLError(str(err), [node])
             applied.add(name)
             yield schema_directive_cls(args)
 
